@@ -300,6 +300,32 @@ def builder_guards(P, R, xq, b):
                     skip_edges.extend(x for x in b.inn[bid] if x.src in live)
                 else:
                     skip_edges.append(e)
+    # a skip decided by a folded helper (`if (!wants_query(...)) continue;`): the reasons are the branches on which
+    # the helper returned that answer
+    def origins(e, depth=0):
+        r = rules.edge_rel(e)
+        if not (r and is_var(r[0]) and r[0]['name'].startswith('__ret@') and const_of(r[2]) is not None and depth < 3):
+            return [e]
+        c, op = const_of(r[2]), r[1]
+        out = []
+        for t in b.stores():
+            if t.ev['k'] == 'store' and is_var(t.ev.get('lhs'), r[0]['name']) and isinstance(const_of(t.ev.get('rhs')), int):
+                v = const_of(t.ev['rhs'])
+                if not {'==': v == c, '!=': v != c, '<': v < c, '<=': v <= c, '>': v > c, '>=': v >= c}.get(op, False):
+                    continue
+                work = list(b.inn[t.bid])
+                seen_ = set()
+                while work:
+                    x = work.pop()
+                    if (x.src, x.dst, x.label) in seen_:
+                        continue
+                    seen_.add((x.src, x.dst, x.label))
+                    if x.label in ('true', 'false', 'case', 'default'):
+                        out.extend(origins(x, depth + 1))
+                    elif not [u for u in b.block_sites(x.src) if not u.ev.get('synthetic') and u.ev['k'] != 'decl']:
+                        work.extend(b.inn[x.src])
+        return out or [e]
+    skip_edges = [o for e in skip_edges for o in origins(e)]
     for e in skip_edges:
         r = rules.edge_rel(e)
         cls = classify(r) if r else []
